@@ -13,15 +13,16 @@
    attribute types (and hex format) on the bus, the nodes, the messages and the signals, and the dedicated
    fields cycle / delay / start-delay time, message send type, signal start value, signal send type
    (exported as the well-known Gen* attributes and landing back in the fields);
-   `export_import_ast_mux_partial` covers SIMPLE MULTIPLEXERS (`mbus`: per message at most one multiplexer
-   at top level whose children are standard or enum signals, each child in one group, in several groups or
+   `export_import_ast_mux_partial` covers SIMPLE MULTIPLEXERS (`mbus`: per message ANY NUMBER of multiplexers
+   at top level (none, one, or several - then every child is written with its SG_MUL_VAL_ line and the importer's
+   several-multiplexer path is taken) whose children are standard or enum signals, each child in one group, in several groups or
    fixed (SG_MUL_VAL_ ranges are written and read back); standard and enum signals beside it; descriptions
    everywhere; no attributes);
    `export_import_ast_partial` is the MERGED whole-bus theorem (`ambus`): the structure of `mbus` (standard and
-   enum signals, descriptions, per message at most one simple multiplexer) TOGETHER WITH attribute assignments
-   and the six dedicated fields on every entity, including the message that holds a multiplexer, the
-   multiplexer itself and its children (standard or enum; one group, several groups or fixed).  Not covered
-   by a whole-bus theorem: several multiplexers per message and a multiplexer inside a multiplexer.
+   enum signals, descriptions, per message any number of top-level simple multiplexers) TOGETHER WITH attribute
+   assignments and the six dedicated fields on every entity, including a message that holds multiplexers, the
+   multiplexers themselves and their children (standard or enum; one group, several groups or fixed).  Not covered
+   by a whole-bus theorem: a multiplexer inside a multiplexer (nested multiplexing).
    The full statement is
    Acme.C11.RoundTrip.export_import_full_statement (well_formed, names_ok spelled out there).
    The other ingredients are proved in isolation: the four attribute types (+hex) and their defaults
@@ -59,8 +60,8 @@ Theorem export_import_ast_attr_partial : forall b, abus b ->
 Proof. exact RoundTripAttr.export_import_attr_thm. Qed.
 Print Assumptions export_import_ast_attr_partial.
 
-(* one multiplexer per message: its children (standard or enum signals, with descriptions) sit in one group, in
-   several groups (SG_MUL_VAL_ ranges) or in every group (fixed); parent, group membership, absolute positions and
+(* any number of top-level multiplexers per message (none, one, several): the children of each (standard or enum
+   signals, with descriptions) sit in one group, in several groups (SG_MUL_VAL_ ranges) or in every group (fixed); parent, group membership, absolute positions and
    selector width are reproduced.
    The importer re-sorts the signals by start bit, the proof is invariant under that permutation *)
 Theorem export_import_ast_mux_partial : forall b, mbus b ->
@@ -69,9 +70,9 @@ Proof. exact RoundTripMux.export_import_mux_thm. Qed.
 Print Assumptions export_import_ast_mux_partial.
 
 (* the merged statement: standard + enum signals, descriptions, attributes and dedicated fields on every entity,
-   one multiplexer per message (children standard or enum signals in one group, several groups or fixed; enum
-   signals also beside it);
-   attributes also on the multiplexer, its children and the message holding it *)
+   any number of top-level multiplexers per message (children standard or enum signals in one group, several groups
+   or fixed; enum signals also beside them);
+   attributes also on the multiplexers, their children and the message holding them *)
 Theorem export_import_ast_partial : forall b, ambus b ->
   exists b', export_import b = Ok b' /\ proj_bus b' = proj_bus b.
 Proof. exact RoundTripAll.export_import_all_thm. Qed.
